@@ -102,12 +102,24 @@ func c08Gen(r *rand.Rand, tier string) any {
 		sc.Ops = append(sc.Ops, opSpec{Op: "edit-item", Item: items[k], N: 1 + r.IntN(3)})
 	}
 	for e := range sc.Spec.Exts {
-		// a requirement moves to another version: the helpers loaded from it change
+		// a requirement moves to another version: the helpers loaded from it change - also
+		// those of the projects that load it (half of the moves go to the highest version, which
+		// always changes what is selected unless it was selected already)
 		if sc.Spec.Exts[e].Sel >= 0 {
-			sc.Ops = append(sc.Ops, opSpec{Op: "bump-req", Item: fmt.Sprint(e), N: sc.Spec.Exts[e].Sel + 1 + r.IntN(len(extVersions)-1)})
+			n := sc.Spec.Exts[e].Sel + 1 + r.IntN(len(extVersions)-1)
+			if r.IntN(2) == 0 {
+				n = len(extVersions) - 1
+			}
+			sc.Ops = append(sc.Ops, opSpec{Op: "bump-req", Item: fmt.Sprint(e), N: n})
 		}
 	}
 	return sc
+}
+
+func atoiOr(s string) int {
+	n := 0
+	fmt.Sscan(s, &n)
+	return n
 }
 
 func fingerprintError(err error) bool {
@@ -307,10 +319,30 @@ func c08ExecInner(scAny any, c *simcheck.Ctx) *simcheck.Violation {
 						saw += e.Kind + "(" + e.Text + ") "
 					}
 				}
-				return simcheck.V("fingerprint-misses-change", "after editing %s, which %s references, a build did not re-execute %s (events: %s)", op.Item, l, l, saw)
+				what := "editing " + op.Item
+				if op.Op == "bump-req" {
+					what = fmt.Sprintf("moving the requirement on %s to %s", extPath(atoiOr(op.Item)), extVersions[((op.N%len(extVersions))+len(extVersions))%len(extVersions)])
+				}
+				return simcheck.V("fingerprint-misses-change", "after %s, which %s references (directly or through what it loads), a build did not re-execute %s (events: %s)", what, l, l, saw)
 			}
 		}
 		c.St.Count("edits_detected", 1)
+		if op.Op == "bump-req" {
+			c.St.Count("requirement_moves_detected", 1)
+			var e int
+			fmt.Sscan(op.Item, &e)
+			for l, k := range h.keys {
+				if t := h.p.target(l); before[l] != k && t != nil && inClosure[l] {
+					direct := false
+					for _, rf := range t.Refs {
+						direct = direct || ((rf.Kind == "extfunc" || rf.Kind == "extconst") && rf.Mod == e)
+					}
+					if !direct {
+						c.St.Probes["requirement_move_reached_a_target_through_another_project_or_helper"]++
+					}
+				}
+			}
+		}
 	}
 	// (e) values that change while the project stays loaded (the REPL's run(), an embedder):
 	// a forced run executes the bodies that append to their own default list, so on the next
